@@ -3,6 +3,7 @@
   The access matrix is the GENERATED `Gen.haveRead` / `Gen.haveWrite` (exhaustive evaluation of access.cpp).
 -/
 import Shm.Lemmas.Purge
+import Shm.Props.C11
 namespace Shm.C01
 open Shm
 
@@ -117,5 +118,26 @@ theorem C01_so_is_not_user (t : Tok) (rw : Bool) (hso : t.soIn = true) : isUserS
 theorem C01_find_candidates_public (st : SState) (o : Obj) (hnu : isUserState st = false) (hv : visible st o = true) :
     o.isPriv = false := by
   cases st <;> simp_all [visible, isUserState]
+
+open Shm.C11 in
+/-- **NOT the property - the finding, stated on the model**: C_Logout invalidates the handles of private objects but leaves every session as it was, its active
+    operation included.  An operation that was started with a private key while the user was logged in therefore goes on in a public session (the model says so
+    because the code does so; K01-op-after-logout exhibits it on the library; listed in known_findings.txt).  PKCS#11 leaves open whether operations survive a
+    logout; the property does not. -/
+theorem C01_partial_operations_survive_logout (s : State) (hwf : s.WF) (hi : s.initialised = true) (h : Nat) (ss : Sess) (t : Tok)
+    (hs : s.handles.getSess h = some ss) (ht : findTok s.slots ss.slot = some t) (k : Nat) (sk : Sess) (hk : s.handles.getSess k = some sk) :
+    (step s (.logout h)).1.handles.getSess k = some sk := by
+  have h2 := (C11_purge_logout s hwf hi h ss t hs ht k).2
+  unfold HTable.getSess at hk ⊢
+  rw [h2]
+  cases hg : s.handles.get k with
+  | none => simp [hg] at hk
+  | some e =>
+    cases e with
+    | sess x =>
+      simp only [hg] at hk
+      simp [Option.filter, diesOnLogout, privOn]
+      exact Option.some.inj hk
+    | obj o => simp [hg] at hk
 
 end Shm.C01
